@@ -66,9 +66,11 @@ def Seg.ringPairsOf (R : Int) (s : Seg) (off a : Int) : List (Int × Int) :=
     let r2 := (sum + rd).tdiv 2
     if r1 < 0 ∨ r2 < 0 ∨ r1 ≥ R ∨ r2 ≥ R then none else some (r1, r2)
 
-/-- `ProjDataInfo::ProjDataInfoCTI` (src/buildblock/ProjDataInfo.cxx:493-572): segments `0, 1, …` -/
+/-- `ProjDataInfo::ProjDataInfoCTI` (src/buildblock/ProjDataInfo.cxx:493-572): segments `0, 1, …`.
+    Repaired code (fix C12-2): `max_delta < span / 2` is an error, so that segment 0 (ring differences `-span/2 … span/2`
+    for even span) is never clipped on one side only. -/
 def ctiPositive (span maxDelta R : Int) : Option (List Seg) :=
-  if maxDelta > R - 1 ∨ span < 1 ∨ span > 2 * R - 1 ∨ maxDelta < (span - 1).tdiv 2 then none
+  if maxDelta > R - 1 ∨ span < 1 ∨ span > 2 * R - 1 ∨ maxDelta < span.tdiv 2 then none
   else
     let min0 := if span.tmod 2 == 1 then -((span - 1).tdiv 2) else -(span.tdiv 2)
     let max0 := if span.tmod 2 == 1 then min0 + span - 1 else min0 + span
@@ -229,10 +231,21 @@ structure ArcGeom where
   maxTang : Int
   minSeg : Int
   segs : List Seg
+  tof : Option TofTable := none
   deriving Repr
 
 def ArcGeom.maxSeg (g : ArcGeom) : Int := g.minSeg + g.segs.length - 1
 def ArcGeom.seg? (g : ArcGeom) (s : Int) : Option Seg := segAt g.minSeg g.segs s
+
+/-- `get_tof_bin` (ProjDataInfo.inl:79): 0 for non-TOF data -/
+def ArcGeom.tofBin (g : ArcGeom) (delta : Rat) : Int := match g.tof with
+  | none => 0
+  | some T => T.getTofBin delta
+
+/-- `get_tof_delta_time` (ProjDataInfo.cxx:78): `mm_to_tof_delta_time(get_k(bin))`, in ps -/
+def ArcGeom.deltaTime (g : ArcGeom) (t : Int) : Rat := match g.tof with
+  | none => 0
+  | some T => T.k t / cHalf
 
 /-- `ProjDataInfoCylindrical::get_LOR` (ProjDataInfoCylindrical.cxx:510) for arc-corrected data.  In exact arithmetic
     `max_a * tantheta = sqrt(R²-s²) * delta*spacing/(2*sqrt(R²-s²)) = delta*spacing/2`, which is what is used here. -/
@@ -260,8 +273,10 @@ def ArcGeom.findSegDown (g : ArcGeom) (delta : Rat) : Nat → Int → Int
       | none => s
     else s
 
-/-- `ProjDataInfoCylindricalArcCorr::get_bin` (ProjDataInfoCylindricalArcCorr.cxx:102-223); `none` = bin value -1 -/
-def ArcGeom.getBin (g : ArcGeom) (l : LorS) : Option Bin :=
+/-- `ProjDataInfoCylindricalArcCorr::get_bin(lor, delta_time)` (ProjDataInfoCylindricalArcCorr.cxx:102-223); `none` = bin
+    value -1.  Repaired code (fix C12-3): the TOF bin is `get_tof_bin(delta_time)`, its sign reversed when the direction of
+    the LOR is (`lor_coords.is_swapped() != swap_direction`). -/
+def ArcGeom.getBin (g : ArcGeom) (l : LorS) (deltaTime : Rat) : Option Bin :=
   let view0 := roundRat (to02 (l.phi - g.offset) / (1 / (g.V : Rat)))
   let swap := view0 > g.V - 1
   let view := if swap then view0 - g.V else view0
@@ -280,15 +295,16 @@ def ArcGeom.getBin (g : ArcGeom) (l : LorS) : Option Bin :=
         | some sg =>
           let m := (l.z2 + l.z1) / 2
           let ax := roundRat ((m - sg.getM g.spacing 0) / sg.axialSampling g.spacing)
-          if ax < 0 ∨ ax > sg.numAx - 1 then none else some ⟨seg, view, ax, tang, 0⟩
+          if ax < 0 ∨ ax > sg.numAx - 1 then none
+          else some ⟨seg, view, ax, tang, (if (l.swapped != decide swap) then -1 else 1) * g.tofBin deltaTime⟩
     | _, _ => none
 
-/-- `ArcCorrection::set_up`: right edges … of the arc-corrected boxes (src/buildblock/ArcCorrection.cxx:122-133):
-    `_arccorr_coords[tp] = (tp - .5) * sampling` for `tp = min … max`, and **`(max + 1 + .5) * sampling`** for the last entry
-    (the loop variable is `max + 1` when the last assignment `(tang_pos_num + .5F) * tangential_sampling` is executed). -/
+/-- `ArcCorrection::set_up`: boundaries of the arc-corrected boxes (src/buildblock/ArcCorrection.cxx:122-134):
+    `_arccorr_coords[tp] = (tp - .5) * sampling` for `tp = min … max + 1` (repaired code, fix C12-5: the last entry, written
+    after the loop with the loop variable equal to `max + 1`, is `(tang_pos_num - .5F) * tangential_sampling`; it used to be
+    `(tang_pos_num + .5F) * …`, which made the last box two bins wide). -/
 def arcCorrCoords (minTang maxTang : Int) (sampling : Rat) : List Rat :=
-  ((List.range (maxTang - minTang + 1).toNat).map fun (k : Nat) => ((minTang + (k : Int) : Int) : Rat) - 1/2) ++
-    [((maxTang + 1 : Int) : Rat) + 1/2] |>.map (· * sampling)
+  (List.range ((maxTang - minTang + 1).toNat + 1)).map fun (k : Nat) => (((minTang + (k : Int) : Int) : Rat) - 1/2) * sampling
 
 /-! ## `overlap_interpolate` (src/include/stir/numerics/overlap_interpolate.inl) over `Rat`
 
@@ -423,13 +439,13 @@ def CylGeom.binForDetPair (g : CylGeom) (d1 r1 d2 r2 t : Int) : Option Bin :=
 inductive RtResult where
   | bin (b : Bin)
   | miss
-  | undefined          -- both end points round to the same detector: the source reads a table entry it never wrote
   deriving Repr, DecidableEq
 
 /-- `ProjDataInfoCylindricalNoArcCorr::get_bin` (ProjDataInfoCylindricalNoArcCorr.cxx:554-591) applied to the LOR
     of bin `b` (`get_LOR`, ProjDataInfoCylindrical.cxx:510), in exact arithmetic: the end points are at the
     detector coordinates `x1 = mash·v + (mash-1)/2 + tp/2`, `x2 = x1 - tp + N/2` (units of 2π/N, the tilt cancels)
-    and at the ring coordinates `m/spacing ∓ delta/2 + (R-1)/2`; every admissible rounding of a tie is listed. -/
+    and at the ring coordinates `m/spacing ∓ delta/2 + (R-1)/2`; every admissible rounding of a tie is listed.
+    Repaired code (fix C12-1): when both end points round to the same detector the result is a miss (bin value -1). -/
 def CylGeom.roundTrip (g : CylGeom) (b : Bin) : List RtResult :=
   match segAt g.minSeg g.segs b.seg with
   | none => []
@@ -448,7 +464,7 @@ def CylGeom.roundTrip (g : CylGeom) (b : Bin) : List RtResult :=
       let d1 := moduloInt e1 g.N
       let d2 := moduloInt e2 g.N
       if r1 < 0 ∨ r1 ≥ g.R ∨ r2 < 0 ∨ r2 ≥ g.R then RtResult.miss
-      else if d1 = d2 then RtResult.undefined
+      else if d1 = d2 then RtResult.miss
       else match g.binForDetPair d1 r1 d2 r2 t with
         | none => RtResult.miss
         | some nb => if nb.tang < g.minTang ∨ nb.tang > g.maxTang then RtResult.miss else RtResult.bin nb
